@@ -1,5 +1,21 @@
-"""C20 - Individual equality / hashing and the container operations built on them."""
+"""C20 - Individual equality / hashing and the container operations built on them.
+
+Three correspondence streams (all compared exactly with the Coq model of Run/C20Run.v):
+  pools    - pools of real Individual objects (all classes, all construction paths, scrambled non-vector
+             fields, colliding Individual.id, hash-colliding vectors, int / numpy representations) under
+             ==, in, any(==), list.remove, Archive.remove, Selector.pop_acceptance, set(),
+             nondominated_truncate;
+  generate - the real GeneticAlgorithm.generate() driven by scripted selector / crossover / mutator stubs;
+  foreign  - designs created by a second interpreter (own Individual.counter) and read back with
+             Individual.from_dict, mixed with local designs carrying the same ids.
+Direct oracle: the property text evaluated on the implementation's own results.
+"""
+import copy
+import json
 import math
+import os
+import subprocess
+import sys
 
 from harness.core import fl, zl, nl, ll, pl
 
@@ -7,27 +23,42 @@ PROP = "C20"
 THEOREMS = {"Artap.Props.C20": [
     "C20_eq_iff_all_close", "C20_eq_total", "C20_eq_detects_any_coordinate", "C20_eq_symmetric",
     "C20_identical_same_hash", "C20_mem_spec", "C20_item_eq_spec", "C20_generate_rejects_only_repeats",
-    "C20_remove_hits_equal_only", "C20_remove_fails_iff_absent", "C20_set_dedupe_exact", "C20_merged_is_equal"]}
+    "C20_remove_hits_equal_only", "C20_remove_fails_iff_absent", "C20_set_dedupe_exact", "C20_merged_is_equal",
+    "C20_depends_on_vectors_only", "C20_generate_discards_only_repeats", "C20_generate_accepts_no_repeat"]}
 AXIOMS_OK = []
 TRUSTED = [
     "Coq 8.16.1 kernel; vm_compute for model evaluation",
     "theorems are closed under the global context (abstract coordinate type, comparison, |a-b| and tolerance)",
     "binary64 instance used by the correspondence: abs(a-b) < 1e-10 with PrimFloat sub/abs/ltb (bit-identical to CPython)",
-    "C20_eq_symmetric has the premise close a b = close b a; proved for exact integers (Example), assumed for binary64 (|a-b| = |b-a| in IEEE-754) and exercised on every generated pair",
-    "hash(tuple(vector)) is an oracle function of the vector; Python's set probing is modelled as 'same hash and entry == element', iteration order compared as a sorted id set",
+    "C20_eq_symmetric has the premise close a b = close b a; proved for exact integers (Example), assumed for binary64 (|a-b| = |b-a| in IEEE-754) and exercised on every generated pair (both a == b and b == a are compared with the model)",
+    "hash(tuple(vector)) is an oracle function of the vector; Python's set probing is modelled as 'same hash and entry == element', iteration order compared as a sorted set of objects",
+    "the model individual is (object identity, vector): Individual.id, costs, state, population_id, features, custom and the class are absent from the model, so independence of them holds by construction; the harness varies all of them on the real objects",
+    "generate: the selector/crossover/mutator results are an input tape (stream of child pairs) of the model; scripted stubs supply the same tape to the real GeneticAlgorithm.generate",
 ]
-ASSUMPTIONS = ["no NaN coordinates; CPython list.__contains__/list.remove/set use identity-or-__eq__ with the container's item as left operand"]
-LEVEL_TEXT = ("Coq theorems over a model of Individual.__eq__/__hash__ and of `in`, list.remove and set() as Python applies them: equality iff "
-              "all coordinates within the tolerance, any single differing coordinate (whichever) makes points unequal, symmetry, identical vectors "
-              "hash alike, membership/remove/set-dedupe hit only equal designs and never discard a distinct one - for all vector lengths and "
-              "values. The model (binary64 instance) is compared exactly with the real Individual/Archive objects on generated pools each run.")
+ASSUMPTIONS = ["no NaN/inf coordinates; vectors of equal length n >= 1 (as the property states; __eq__ on vectors of different length is not compared); "
+               "CPython list.__contains__/list.remove/set use identity-or-__eq__ with the container's item as left operand; "
+               "generate theorems and oracle for max_population_size >= 2 (for 1 the loop returns its first child twice; population sizes are C09's subject)"]
+LEVEL_TEXT = ("Coq theorems over a model of Individual.__eq__/__hash__, of `in`, list.remove and set() as Python applies them, and of the whole "
+              "duplicate-rejecting loop of GeneticAlgorithm.generate: equality iff all coordinates within the tolerance, any single differing "
+              "coordinate (whichever) makes points unequal, symmetry, identical vectors hash alike, results depend on the two vectors only, "
+              "membership/remove/set-dedupe hit only equal designs, generate discards only repeats of kept designs and keeps no repeat - for all "
+              "vector lengths, values, streams of children and population sizes >= 2. Each run the binary64 instance of the model is compared exactly "
+              "with the real objects: pools of all Individual classes built through every construction path (constructor, copy, copy.copy/deepcopy, "
+              "sync, to_dict/from_dict incl. a second interpreter, colliding ids, scrambled costs/state/features, int/numpy coordinates, "
+              "hash-colliding vectors) under ==, !=, in, list.remove, Archive.remove, pop_acceptance, set(), nondominated_truncate, and the real "
+              "generate() driven by scripted operators with exact repeats, near-repeats and hash collisions.")
 LEVEL_NOTE = ("Trusted: Coq kernel, the hand-written model, the harness; symmetry of |a-b| for binary64 is a stated premise (exercised, not proved); "
-              "hash collisions between distinct tuples are outside the model (hash is an oracle).")
+              "hash is an oracle function of the vector in the model (collisions between distinct tuples are allowed by the model and exercised: "
+              "-1.0/-2.0, x/x*2^61); independence of non-vector fields is by construction of the model and checked on the implementation by "
+              "the correspondence and an invariance oracle; generate for max_population_size = 1 and __eq__ on vectors of different length are outside the statement.")
 
 HEADER = "From Artap Require Import Run.C20Run.\nFrom Coq Require Import List ZArith Floats.\nImport ListNotations.\nOpen Scope float_scope.\n"
 
-BASE = [0.0, 1.0, -1.0, 2.5, 1000.0, 1e-10, 1e-9, -3.75, 0.1, 1e6, 5e-11, -0.0]
+BASE = [0.0, 1.0, -1.0, 2.5, 1000.0, 1e-10, 1e-9, -3.75, 0.1, 1e6, 5e-11, -0.0, 2.0, 0.5, -2.0, 4.0]
 DELTAS = [0.0, 0.0, 1e-11, -1e-11, 5e-11, 9.9e-11, 1e-10, 1.1e-10, 2e-10, 1e-9, -1e-9, 1.0, -1.0, 1e-3]
+# distinct floats with the same CPython hash (hash(-1) is -2; float hash is the value modulo 2^61-1)
+COLLIDE = {-1.0: -2.0, -2.0: -1.0, 1.0: 2.0 ** 61, 2.0: 2.0 ** 62, 0.5: 2.0 ** 60, 4.0: 2.0 ** 63, 3.0: 2.0 ** 61 + 2.0 ** 62,
+           2.0 ** 61: 1.0, 2.0 ** 62: 2.0, 2.0 ** 60: 0.5, 2.0 ** 63: 4.0}
 
 
 def close(a, b):
@@ -38,147 +69,584 @@ def oracle_eq(v, w):
     return all(close(a, b) for a, b in zip(v, w))
 
 
+def fvec(x):
+    """the coordinates of a real Individual as Python floats (ints / numpy scalars converted exactly)"""
+    return [float(c) for c in x.vector]
+
+
+def bits_equal(v, w):
+    return len(v) == len(w) and all(a == b and math.copysign(1, a) == math.copysign(1, b) for a, b in zip(v, w))
+
+
+class _Stop(Exception):
+    pass
+
+
 def run(ctx):
+    import random as _random
+    import numpy as np
     from artap.individual import Individual
     from artap.archive import Archive
+    from artap.problem import Problem
+    from artap.algorithm_genetic import GeneticAlgorithm, IndividualEpsMOEA
+    from artap.algorithm_NSGAII import IndividualNSGAII
+    from artap.algorithm_swarm import IndividualSwarm
+    from artap.operators import nondominated_truncate, TournamentSelector
     rng = ctx.rng
-    n_cases = ctx.pick(1500, 40000)
+    CLASSES = [Individual, Individual, IndividualNSGAII, IndividualEpsMOEA, IndividualSwarm]
+    n_pool = ctx.pick(1300, 30000)
+    n_gen = ctx.pick(500, 12000)
+    n_foreign = ctx.pick(120, 1500)
     cases, expected, meta = [], [], []
-    stats = {"eq_true": 0, "eq_false": 0, "differs_only_in_one_coord": 0, "in": 0, "remove": 0, "set": 0, "repeated": 0,
-             "diff_position_hist": {}}
+    stats = {"eq_true": 0, "eq_false": 0, "differs_only_in_one_coord": 0, "diff_position_hist": {},
+             "ops": {}, "paths": {}, "classes": {}, "representations": {},
+             "eq_pairs_same_Individual_id_different_vectors": 0, "eq_pairs_different_id_equal_vectors": 0,
+             "eq_pairs_hash_collision_distinct": 0, "eq_pairs_mixed_classes": 0,
+             "set_cases_with_colliding_ids": 0, "set_cases_with_hash_collision": 0,
+             "invariance_probes": 0, "representation_probes": 0,
+             "generate": {"cases": 0, "children": 0, "rejected_exact_repeat": 0, "rejected_near_repeat": 0,
+                          "kept_near_but_distinct": 0, "kept_hash_colliding_distinct": 0, "capacity_cut": 0,
+                          "by_N": {}, "by_mode": {}, "by_class": {}}}
 
-    def make_pool():
-        n = rng.choice([1, 1, 2, 3, 3, 4, 6])
-        size = rng.choice([2, 3, 4, 5, 7])
+    def bump(d, k, by=1):
+        d[k] = d.get(k, 0) + by
+
+    def fail(what, inp, match):
+        ctx.oracle_failures.append({"what": what, "input": inp, "match": match})
+
+    # ------------------------------------------------------------------ representations of a vector
+    def rep(v, kind=None):
+        kind = kind or rng.choice(["list", "list", "list", "npf", "arr", "int"])
+        bump(stats["representations"], kind)
+        if kind == "npf":
+            return [np.float64(x) for x in v]
+        if kind == "arr":
+            return np.array(v, dtype=float)
+        if kind == "int":
+            return [int(x) if (float(x).is_integer() and abs(x) <= 1e6 and not (x == 0 and math.copysign(1, x) < 0)) else x for x in v]
+        return [float(x) for x in v]
+
+    def decorate(x):
+        """scramble every field the property does not mention"""
+        if rng.random() < 0.5:
+            x.costs = [rng.choice([0.0, 1.0, -3.5, 7.25]) for _ in range(rng.choice([1, 2]))]
+            x.costs_signed = list(x.costs) + [True]
+        if rng.random() < 0.4:
+            x.state = rng.choice(list(Individual.State))
+        if rng.random() < 0.4:
+            x.population_id = rng.choice([-1, 0, 1, 5])
+            x.algorithm_id = rng.choice([0, 1, 2])
+        if rng.random() < 0.3:
+            x.custom = {"tag": rng.randrange(4)}
+        x.features["front_number"] = rng.randrange(3)
+        x.features["crowding_distance"] = rng.choice([0, 0.5, 1.0, 2.0])
+        return x
+
+    def make_object(v, objs):
+        """one real design with coordinates v, built through one of the ways artap (or a user) builds it"""
+        paths = ["fresh", "fresh", "fresh"]
+        if objs:
+            paths += ["copy", "copycopy", "deepcopy", "from_dict_same_id", "assign_id", "sync", "from_dict"]
+        else:
+            paths += ["from_dict", "sync"]
+        path = rng.choice(paths)
+        bump(stats["paths"], path)
+        cls = rng.choice(CLASSES)
+        if path == "fresh":
+            y = cls(rep(v))
+        elif path == "copy":                       # Individual*.copy(), then the vector is assigned as generate() does
+            y = rng.choice(objs).copy()
+            y.vector = rep(v)
+        elif path == "copycopy":                   # shallow copy: same Individual.id, shared features dict
+            y = copy.copy(rng.choice(objs))
+            y.features = dict(y.features)
+            y.vector = rep(v)
+        elif path == "deepcopy":                   # same Individual.id
+            y = copy.deepcopy(rng.choice(objs))
+            y.vector = rep(v)
+        elif path == "from_dict":                  # JSON round trip (datastore reload), id of the dumped object
+            y = Individual.from_dict(json.loads(json.dumps(decorate(cls(rep(v, rng.choice(["list", "npf", "int"])))).to_dict())))
+        elif path == "from_dict_same_id":          # reloaded design that carries the id of a local design
+            d = json.loads(json.dumps(cls(rep(v, "list")).to_dict()))
+            d["id"] = rng.choice(objs).id
+            y = Individual.from_dict(d)
+        elif path == "assign_id":
+            y = cls(rep(v))
+            y.id = rng.choice(objs).id
+        else:                                      # sync: takes over vector (aliased) and fields, keeps its own id
+            z = decorate(cls(rep(v)))
+            y = cls(rep([0.0] * len(v), "list"))
+            y.sync(z)
+        bump(stats["classes"], type(y).__name__)
+        return decorate(y)
+
+    def make_vectors(n, size):
         base = [rng.choice(BASE) for _ in range(n)]
         pool = [list(base)]
         for _ in range(size - 1):
             r = rng.random()
             src = rng.choice(pool)
-            if r < 0.25:
+            if r < 0.22:
                 v = list(src)                               # identical vector, different object
-            elif r < 0.75:
+            elif r < 0.62:
                 v = list(src)
                 k = rng.choice([1, 1, 1, 2, n])
                 for pos in rng.sample(range(n), min(k, n)):
                     v[pos] = v[pos] + rng.choice(DELTAS)
+            elif r < 0.80:                                  # distinct vector with the same hash
+                v = list(src)
+                cand = [p for p in range(n) if v[p] in COLLIDE]
+                if cand:
+                    p = rng.choice(cand)
+                    v[p] = COLLIDE[v[p]]
+                else:
+                    v[rng.randrange(n)] = rng.choice([-1.0, -2.0, 1.0, 2.0 ** 61])
             else:
                 v = [rng.choice(BASE) for _ in range(n)]
             pool.append(v)
-        inds = [Individual(v) for v in pool]
-        if rng.random() < 0.3:                              # the same object twice (identity short-cut)
-            inds.append(inds[rng.randrange(len(inds))])
-        return inds
+        return pool
 
-    def enc_pool(inds, ids):
-        return ll([pl(pl(nl(ids[id(x)]), ll(x.vector, fl)), zl(hash(x))) for x in inds])
+    def make_pool():
+        n = rng.choice([1, 1, 2, 3, 3, 4, 6])
+        size = rng.choice([2, 3, 4, 5, 7])
+        objs = []
+        for v in make_vectors(n, size):
+            objs.append(make_object(v, objs))
+        return objs
 
-    for _ in range(n_cases):
-        inds = make_pool()
-        ids = {}
-        for x in inds:
-            ids.setdefault(id(x), len(ids))
-        # pool entries are unique objects in id order
-        uniq = []
-        for x in inds:
-            if ids[id(x)] == len(uniq):
-                uniq.append(x)
-        pool_txt = enc_pool(uniq, ids)
-        k = len(uniq)
-        kind = rng.choice(["eq", "eq", "eq", "in", "remove", "set", "repeated", "archive_remove"])
-        i = rng.randrange(k)
-        sel = [rng.randrange(k) for _ in range(rng.choice([0, 1, 2, 3, 5]))]
-        m = {"pool": [x.vector for x in uniq], "op": kind, "i": i, "sel": sel}
-        try:
-            if kind == "eq":
-                j = rng.randrange(k)
-                m["j"] = j
-                a, b = uniq[i], uniq[j]
-                r = (a == b)
-                r2 = (b == a)
-                want = oracle_eq(a.vector, b.vector)
-                op = "OpEq %s %s" % (nl(i), nl(j))
-                obs = "ObB %s" % ("true" if r else "false")
-                stats["eq_true" if r else "eq_false"] += 1
-                diffpos = [p for p in range(len(a.vector)) if not close(a.vector[p], b.vector[p])]
-                if len(diffpos) == 1:
-                    stats["differs_only_in_one_coord"] += 1
-                    stats["diff_position_hist"][diffpos[0]] = stats["diff_position_hist"].get(diffpos[0], 0) + 1
-                if bool(r) != want:
-                    ctx.oracle_failures.append({"what": "a == b is %s but coordinates %s within 1e-10" % (r, "all" if want else "not all"),
-                                                "input": {"v": a.vector, "w": b.vector}, "match": {"kind": "eq_pair", "v": a.vector, "w": b.vector}})
-                if bool(r) != bool(r2):
-                    ctx.oracle_failures.append({"what": "equality is not symmetric", "input": {"v": a.vector, "w": b.vector},
-                                                "match": {"kind": "eq_sym", "v": a.vector, "w": b.vector}})
-                if a.vector == b.vector and all(math.copysign(1, p) == math.copysign(1, q) for p, q in zip(a.vector, b.vector)) and hash(a) != hash(b):
-                    ctx.oracle_failures.append({"what": "identical vectors hash differently", "input": {"v": a.vector},
-                                                "match": {"kind": "hash", "v": a.vector}})
-            elif kind in ("in", "repeated"):
-                lst = [uniq[s] for s in sel]
-                if kind == "in":
-                    r = uniq[i] in lst
-                    op = "OpIn %s %s" % (nl(i), ll(sel, nl))
-                else:
-                    r = any(uniq[i] == o for o in lst)
-                    op = "OpRepeated %s %s" % (nl(i), ll(sel, nl))
-                obs = "ObB %s" % ("true" if r else "false")
-                stats[kind] += 1
-                want = any(o is uniq[i] or oracle_eq(o.vector, uniq[i].vector) for o in lst)
-                if bool(r) != want:
-                    ctx.oracle_failures.append({"what": "membership test %s but an equal design %s" % (r, "exists" if want else "does not exist"),
-                                                "input": m, "match": {"kind": "mem", "pool": m["pool"], "i": i, "sel": sel}})
-            elif kind in ("remove", "archive_remove"):
-                lst = [uniq[s] for s in sel]
-                if kind == "remove":
-                    try:
-                        lst.remove(uniq[i])
-                        ok = True
-                    except ValueError:
-                        ok = False
-                else:
-                    ar = Archive()
-                    ar._contents = lst
-                    ok = ar.remove(uniq[i])
-                    lst = ar._contents
-                op = "OpRemove %s %s" % (nl(i), ll(sel, nl))
-                obs = ("ObL %s" % ll([ids[id(x)] for x in lst], nl)) if ok else "ObErr"
-                stats["remove"] += 1
-                first = next((p for p, s in enumerate(sel) if uniq[s] is uniq[i] or oracle_eq(uniq[s].vector, uniq[i].vector)), None)
-                want = None if first is None else [s for p, s in enumerate(sel) if p != first]
-                got = [ids[id(x)] for x in lst] if ok else None
-                if got != want:
-                    ctx.oracle_failures.append({"what": "remove took out %r, the first equal design gives %r" % (got, want),
-                                                "input": m, "match": {"kind": "remove", "pool": m["pool"], "i": i, "sel": sel}})
-            else:
-                lst = [uniq[s] for s in sel]
-                res = set(lst)
-                got = sorted(ids[id(x)] for x in res)
-                op = "OpSet %s" % ll(sel, nl)
-                obs = "ObL %s" % ll(got, nl)
-                stats["set"] += 1
-                # never discard a distinct design; never keep two identical ones
-                for s in sel:
-                    if not any(uniq[g] is uniq[s] or oracle_eq(uniq[g].vector, uniq[s].vector) for g in got):
-                        ctx.oracle_failures.append({"what": "set() discarded a design that differs from every survivor", "input": m,
-                                                    "match": {"kind": "set_drop", "pool": m["pool"], "sel": sel}})
-                        break
-                for a in got:
-                    for b in got:
-                        if a < b and uniq[a].vector == uniq[b].vector and hash(uniq[a]) == hash(uniq[b]):
-                            ctx.oracle_failures.append({"what": "set() kept two identical designs", "input": m,
-                                                        "match": {"kind": "set_dup", "pool": m["pool"], "sel": sel}})
-        except IndexError:
-            obs = "ObErr"
+    def enc_pool(objs):
+        return ll([pl(pl(pl(nl(t), zl(int(x.id))), ll(fvec(x), fl)), zl(hash(x))) for t, x in enumerate(objs)])
+
+    def emit(pool_txt, op, obs, m, key, nontrivial=True):
         cases.append("{| c20_pool := %s; c20_op_ := %s |}" % (pool_txt, op))
         expected.append(obs)
         m["observed"] = obs
         meta.append(m)
-        ctx.count((kind, tuple(tuple(x.vector) for x in uniq), i, tuple(sel), m.get("j")), nontrivial=(k > 1))
-        if kind in ("eq", "set"):
+        ctx.count(key, nontrivial=nontrivial)
+
+    def describe(objs):
+        return [{"vector": fvec(x), "Individual.id": x.id, "class": type(x).__name__,
+                 "repr": type(x.vector).__name__ + "/" + ",".join(sorted({type(c).__name__ for c in x.vector}))} for x in objs]
+
+    selector = TournamentSelector([])
+
+    # ------------------------------------------------------------------ pool operations
+    def pool_case(objs, source, kind=None, i=None, sel=None, j=None):
+        k = len(objs)
+        tok = {id(x): t for t, x in enumerate(objs)}
+        pool_txt = enc_pool(objs)
+        kind = kind or rng.choice(["eq", "eq", "eq", "in", "remove", "set", "repeated", "archive_remove", "truncate", "pop_acceptance"])
+        bump(stats["ops"], kind)
+        i = rng.randrange(k) if i is None else i
+        sel = [rng.randrange(k) for _ in range(rng.choice([0, 1, 2, 3, 5]))] if sel is None else list(sel)
+        m = {"source": source, "pool": describe(objs), "op": kind, "i": i, "sel": sel}
+        vecs = [fvec(x) for x in objs]
+        keyv = tuple(tuple(v) for v in vecs)
+
+        def same(p, q):                       # what the property calls the same design for containers
+            return objs[p] is objs[q] or oracle_eq(vecs[p], vecs[q])
+
+        if kind == "eq":
+            j = rng.randrange(k) if j is None else j
+            m["j"] = j
+            a, b = objs[i], objs[j]
+            r, r2 = bool(a == b), bool(b == a)
+            ne = bool(a != b)
+            want = oracle_eq(vecs[i], vecs[j])
+            stats["eq_true" if r else "eq_false"] += 1
+            diffpos = [p for p in range(len(vecs[i])) if not close(vecs[i][p], vecs[j][p])]
+            if len(diffpos) == 1:
+                stats["differs_only_in_one_coord"] += 1
+                bump(stats["diff_position_hist"], diffpos[0])
+            if i != j and a.id == b.id and not want:
+                stats["eq_pairs_same_Individual_id_different_vectors"] += 1
+            if a.id != b.id and want:
+                stats["eq_pairs_different_id_equal_vectors"] += 1
+            if not want and hash(a) == hash(b):
+                stats["eq_pairs_hash_collision_distinct"] += 1
+            if type(a) is not type(b):
+                stats["eq_pairs_mixed_classes"] += 1
+            inp = {"v": vecs[i], "w": vecs[j], "a": m["pool"][i], "b": m["pool"][j]}
+            if r != want:
+                fail("a == b is %s but coordinates are %s within 1e-10" % (r, "all" if want else "not all"), inp,
+                     {"kind": "eq_pair", "v": vecs[i], "w": vecs[j]})
+            if r != r2:
+                fail("equality is not symmetric: a == b is %s, b == a is %s" % (r, r2), inp, {"kind": "eq_sym", "v": vecs[i], "w": vecs[j]})
+            if ne == r:
+                fail("a != b is %s while a == b is %s" % (ne, r), inp, {"kind": "eq_ne", "v": vecs[i], "w": vecs[j]})
+            if bits_equal(vecs[i], vecs[j]) and hash(a) != hash(b):
+                fail("identical vectors hash differently", inp, {"kind": "hash", "v": vecs[i]})
+            # invariance: the verdict and the hashes are functions of the vectors only
+            if rng.random() < 0.5 and a is not b:
+                stats["invariance_probes"] += 1
+                saved = [(x, x.id, x.costs, x.costs_signed, x.state, x.population_id) for x in (a, b)]
+                h0 = (hash(a), hash(b))
+                for variant in ("same_id", "swapped_id", "fields"):
+                    if variant == "same_id":
+                        a.id = b.id
+                    elif variant == "swapped_id":
+                        a.id, b.id = saved[1][1], saved[0][1]
+                    else:
+                        a.costs, a.costs_signed, a.state, a.population_id = [123.0], [123.0, True], Individual.State.FAILED, 77
+                        b.costs, b.costs_signed, b.state, b.population_id = [], [], Individual.State.EVALUATED, -5
+                    got = (bool(a == b), bool(b == a), (hash(a), hash(b)))
+                    if got != (r, r2, h0):
+                        fail("==/hash changed (%r -> %r) when only non-vector fields were changed (%s)" % ((r, r2, h0), got, variant),
+                             dict(inp, variant=variant, ids=[a.id, b.id]), {"kind": "eq_invariance", "v": vecs[i], "w": vecs[j], "variant": variant})
+                for x, xid, c, cs, st, pid in saved:
+                    x.id, x.costs, x.costs_signed, x.state, x.population_id = xid, c, cs, st, pid
+            # the same coordinates as Python floats / numpy scalars / array / ints: same hash, equal
+            if rng.random() < 0.3:
+                stats["representation_probes"] += 1
+                twins = [Individual(rep(vecs[i], kd)) for kd in ("list", "npf", "arr", "int")]
+                for tw in twins:
+                    if not bits_equal(fvec(tw), vecs[i]):
+                        continue
+                    if hash(tw) != hash(a) or not (tw == a) or not (a == tw):
+                        fail("the same coordinates given as %s hash/compare differently" % type(tw.vector[0]).__name__,
+                             {"v": vecs[i], "hash": [hash(tw), hash(a)], "eq": [bool(tw == a), bool(a == tw)]},
+                             {"kind": "hash_repr", "v": vecs[i]})
+            emit(pool_txt, "OpEq %s %s" % (nl(i), nl(j)), "ObB %s" % ("true" if r else "false"), m, ("eq", keyv, i, j), k > 1)
+            m2 = dict(m, i=j, j=i, op="eq(reversed)")
+            emit(pool_txt, "OpEq %s %s" % (nl(j), nl(i)), "ObB %s" % ("true" if r2 else "false"), m2, ("eq", keyv, j, i), k > 1)
+            ctx.sample(m)
+            return
+        lst = [objs[s] for s in sel]
+        if kind in ("in", "repeated"):
+            if kind == "in":
+                r = objs[i] in lst
+                op = "OpIn %s %s" % (nl(i), ll(sel, nl))
+                want = any(same(s, i) for s in sel)
+            else:
+                r = any(objs[i] == o for o in lst)
+                op = "OpRepeated %s %s" % (nl(i), ll(sel, nl))
+                want = any(oracle_eq(vecs[i], vecs[s]) for s in sel)
+            obs = "ObB %s" % ("true" if r else "false")
+            if bool(r) != want:
+                fail("membership test says %s but an equal design %s" % (r, "exists" if want else "does not exist"),
+                     m, {"kind": "mem", "pool": vecs, "i": i, "sel": sel})
+        elif kind in ("remove", "archive_remove", "pop_acceptance"):
+            newcomer = None
+            if kind == "remove":
+                try:
+                    lst.remove(objs[i])
+                    ok = True
+                except ValueError:
+                    ok = False
+            elif kind == "archive_remove":
+                ar = Archive()
+                ar._contents = lst
+                ok = ar.remove(objs[i])
+                lst = ar._contents
+            else:
+                # Selector.pop_acceptance with mutually non-dominated costs: individuals.remove(random.choice(individuals))
+                if not sel:
+                    sel = [i]
+                    m["sel"] = sel
+                    lst = [objs[i]]
+                c = rng.randrange(len(sel))
+                i = sel[c]
+                m["i"] = i
+                newcomer = Individual([0.0] * len(vecs[0]))
+                saved = [(x, x.costs_signed) for x in lst]
+                for x in lst + [newcomer]:
+                    x.costs_signed = [1.0, True]
+                orig_choice = _random.choice
+                _random.choice = lambda seq: seq[c]
+                try:
+                    selector.pop_acceptance(lst, newcomer)
+                finally:
+                    _random.choice = orig_choice
+                    for x, cs in saved:
+                        x.costs_signed = cs
+                ok = True
+                if not lst or lst[-1] is not newcomer:
+                    fail("pop_acceptance did not append the accepted design", m, {"kind": "pop_acceptance_append"})
+                else:
+                    lst = lst[:-1]
+            op = "OpRemove %s %s" % (nl(i), ll(sel, nl))
+            got = [tok.get(id(x), 99) for x in lst] if ok else None
+            obs = ("ObL %s" % ll(got, nl)) if ok else "ObErr"
+            first = next((p for p, s in enumerate(sel) if same(s, i)), None)
+            want = None if first is None else [s for p, s in enumerate(sel) if p != first]
+            if got != want:
+                fail("%s took out %r, removing the first equal design gives %r" % (kind, got, want),
+                     m, {"kind": "remove", "pool": vecs, "i": i, "sel": sel})
+        else:
+            if kind == "set":
+                res = set(lst)
+            else:
+                res = nondominated_truncate(list(lst), len(lst))
+            got = sorted(tok.get(id(x), 99) for x in res)
+            op = "OpSet %s" % ll(sel, nl)
+            obs = "ObL %s" % ll(got, nl)
+            ids = [objs[s].id for s in set(sel)]
+            if len(set(ids)) < len(ids):
+                stats["set_cases_with_colliding_ids"] += 1
+            if any(hash(objs[p]) == hash(objs[q]) and not oracle_eq(vecs[p], vecs[q]) for p in set(sel) for q in set(sel)):
+                stats["set_cases_with_hash_collision"] += 1
+            if len(res) != len(got) or len(set(got)) != len(got):
+                fail("%s returned an object twice or a foreign object" % kind, m, {"kind": "set_foreign", "pool": vecs, "sel": sel})
+            # never discard a distinct design; never keep two identical ones
+            for s in sel:
+                if not any(same(g, s) for g in got if g < k):
+                    fail("%s discarded a design that differs from every survivor" % kind, dict(m, survivors=got, discarded=s),
+                         {"kind": "set_drop", "pool": vecs, "sel": sel})
+                    break
+            for p in got:
+                for q in got:
+                    if p < q < k and bits_equal(vecs[p], vecs[q]) and hash(objs[p]) == hash(objs[q]):
+                        fail("%s kept two identical designs" % kind, dict(m, survivors=got), {"kind": "set_dup", "pool": vecs, "sel": sel})
+            ctx.sample(m)
+        emit(pool_txt, op, obs, m, (kind, keyv, i, tuple(sel)), k > 1)
+
+    # fixed scenarios (independent of the seed): a reloaded design that carries the id of a local design with
+    # other coordinates; equal coordinates under different ids and classes; a hash collision
+    a0 = Individual([1.0, 2.0])
+    d0 = json.loads(json.dumps(Individual([3.0, 4.0]).to_dict()))
+    d0["id"] = a0.id
+    b0 = Individual.from_dict(d0)
+    c0_ = IndividualNSGAII([1.0, 2.0 + 1e-11])
+    e0 = IndividualSwarm([-1.0, 2.0])
+    f0 = copy.copy(e0)
+    f0.features = dict(e0.features)
+    f0.vector = [-2.0, 2.0]
+    fixed = [decorate(x) for x in (a0, b0, c0_, e0, f0, Individual([5.0, 6.0]))]
+    for (p_, q_) in ((0, 1), (0, 2), (3, 4), (2, 0), (1, 5)):
+        pool_case(fixed, "fixed", "eq", p_, [], q_)
+    for kind_ in ("in", "remove", "archive_remove", "repeated", "pop_acceptance"):
+        pool_case(fixed, "fixed", kind_, 1, [0, 5])
+        pool_case(fixed, "fixed", kind_, 4, [0, 3, 5])
+        pool_case(fixed, "fixed", kind_, 2, [5, 0, 2])
+    for kind_ in ("set", "truncate"):
+        pool_case(fixed, "fixed", kind_, 0, [0, 1, 5])
+        pool_case(fixed, "fixed", kind_, 0, [3, 4, 0, 2])
+    for _ in range(n_pool):
+        try:
+            pool_case(make_pool(), "local")
+        except IndexError as e:          # vectors of one pool have one length: an IndexError is not expected
+            ctx.mismatches.append({"what": "IndexError in a pool operation on vectors of equal length: %r" % (e,)})
+
+    # ------------------------------------------------------------------ designs of another interpreter
+    # A second interpreter (its own Individual.counter) creates designs and dumps them with to_dict();
+    # they come back through Individual.from_dict with ids that local designs with other vectors carry.
+    c0 = Individual.counter
+    K = 24
+    local_vecs = [[rng.choice(BASE) for _ in range(3)] for _ in range(K)]
+    locals_ = [decorate(rng.choice(CLASSES)(list(v))) for v in local_vecs]
+    foreign_vecs = []
+    for t, v in enumerate(local_vecs):
+        r = rng.random()
+        w = list(v)
+        if r < 0.25:
+            pass
+        elif r < 0.6:
+            w[rng.randrange(3)] += rng.choice(DELTAS)
+        else:
+            w = [rng.choice(BASE) for _ in range(3)]
+        foreign_vecs.append(w)
+    code = ("import json, sys\n"
+            "from artap.individual import Individual\n"
+            "from artap.algorithm_NSGAII import IndividualNSGAII\n"
+            "skip, vecs = json.loads(sys.stdin.read())\n"
+            "skip -= Individual.counter\n"
+            "for _ in range(skip): Individual([0.0])\n"
+            "for k, v in enumerate(vecs):\n"
+            "    x = (IndividualNSGAII if k % 2 else Individual)(v)\n"
+            "    x.costs = [float(k)]\n"
+            "    print('C20DUMP' + json.dumps(x.to_dict()))\n")
+    foreign = []
+    p = None
+    try:
+        p = subprocess.run([sys.executable, "-c", code], input=json.dumps([c0, foreign_vecs]), capture_output=True, text=True,
+                           timeout=120, env=dict(os.environ))
+        for line in p.stdout.splitlines():
+            if line.startswith("C20DUMP"):
+                foreign.append(Individual.from_dict(json.loads(line[7:])))
+                foreign[-1].features.setdefault("front_number", len(foreign) % 3)
+                foreign[-1].features.setdefault("crowding_distance", 0.5 * (len(foreign) % 4))
+    except Exception as e:   # the second interpreter is an extra input source, its absence is reported, not hidden
+        ctx.notes.append("second interpreter failed: %r" % (e,))
+    stats["foreign_designs"] = len(foreign)
+    stats["foreign_ids_shared_with_local"] = sum(1 for f in foreign for x in locals_ if f.id == x.id)
+    if len(foreign) == K:
+        for _ in range(n_foreign):
+            picks = rng.sample(range(K), rng.choice([1, 2, 3]))
+            objs = []
+            for t in picks:
+                objs += [locals_[t], foreign[t]]
+            rng.shuffle(objs)
+            pool_case(objs, "second interpreter")
+    else:
+        ctx.mismatches.append({"what": "the second interpreter produced %d of %d designs" % (len(foreign), K),
+                               "stderr": (p.stderr[-1500:] if p is not None else "")})
+
+    # ------------------------------------------------------------------ the real GeneticAlgorithm.generate
+    class _P(Problem):
+        def set(self, **kwargs):
+            self.name = "c20"
+            self.parameters = [{'name': 'x%d' % t, 'bounds': [-10.0, 10.0]} for t in range(4)]
+            self.costs = [{'name': 'f', 'criteria': 'minimize'}]
+
+        def evaluate(self, individual):
+            return [0.0]
+
+    algo = GeneticAlgorithm(_P())
+
+    class Sel:
+        def select(self, population):
+            return population[rng.randrange(len(population))]
+
+    def stream(n, length):
+        """children with exact repeats, near-repeats, hash-colliding distinct vectors and fresh vectors"""
+        palette = [[rng.choice(BASE) for _ in range(n)] for _ in range(rng.choice([1, 2, 3]))]
+        out = []
+        for _ in range(length):
+            r = rng.random()
+            src = rng.choice(out) if out and rng.random() < 0.7 else rng.choice(palette)
+            v = list(src)
+            if r < 0.25:
+                pass
+            elif r < 0.55:
+                for pos in rng.sample(range(n), min(rng.choice([1, 1, 2, n]), n)):
+                    v[pos] = v[pos] + rng.choice(DELTAS)
+            elif r < 0.75:
+                cand = [p for p in range(n) if v[p] in COLLIDE]
+                if cand:
+                    p = rng.choice(cand)
+                    v[p] = COLLIDE[v[p]]
+                else:
+                    v[rng.randrange(n)] = rng.choice([-1.0, -2.0, 1.0, 2.0 ** 61])
+            else:
+                v = [rng.choice(BASE) for _ in range(n)]
+            out.append(v)
+        return out
+
+    G = stats["generate"]
+
+    def gen_case(N, n, script, mode, kinds, cls, with_archive, sample=False):
+        produced = []                     # the vector objects handed to generate, in the order of creation
+        planned = []                      # their values
+        state = {"k": 0, "calls": 0}
+
+        def next_vec():
+            state["calls"] += 1
+            if state["calls"] > 400:
+                raise _Stop()
+            if state["k"] < len(script):
+                v = script[state["k"]]
+            else:                          # fresh distinct tail: guarantees termination
+                v = [1e4 + state["k"]] * n
+            state["k"] += 1
+            return v
+
+        class Cross:
+            def cross(self, p1, p2):
+                if mode == "crossover":
+                    return rep(next_vec(), rng.choice(kinds)), rep(next_vec(), rng.choice(kinds))
+                return list(p1), list(p2)
+
+        class Mut:
+            def mutate(self, p, q=None):
+                if mode == "mutator":
+                    p = rep(next_vec(), rng.choice(kinds))
+                produced.append(p)
+                planned.append([float(c) for c in p])
+                return p
+
+        algo.options['max_population_size'] = N
+        algo.selector, algo.crossover, algo.mutator = Sel(), Cross(), Mut()
+        parents = [cls([0.0] * n), cls([1.0] * n), cls([2.0] * n)]
+        archive = None
+        if with_archive:
+            archive = Archive()
+            archive._contents = [cls([3.0] * n), cls([4.0] * n)]
+        m = {"source": "generate", "N": N, "mode": mode, "class": cls.__name__}
+        try:
+            offs = algo.generate(parents, archive)
+            err = None
+        except _Stop:
+            offs, err = [], "generate did not finish within 200 rounds of distinct children"
+        except IndexError as e:
+            offs, err = [], "IndexError %r" % (e,)
+        m["children"] = planned
+        npairs = len(planned) // 2
+        # identify the survivors among the children: by object, else by value in stream order
+        toks = []
+        last = -1
+        for o in offs:
+            t = next((j for j, pv in enumerate(produced) if o.vector is pv), None)
+            if t is None:
+                ov = [float(c) for c in o.vector]
+                t = next((j for j in range(last + 1, len(planned)) if bits_equal(planned[j], ov)), 99999)
+            last = max(last, t)
+            toks.append(t)
+        m["offspring"] = toks
+        m["offspring_vectors"] = [[float(c) for c in o.vector] for o in offs]
+        pool_txt = ll([pl(pl(pl(nl(t), zl(0)), ll(v, fl)), zl(hash(tuple(v)))) for t, v in enumerate(planned)])
+        op = "OpGenerate %s %s" % (nl(N), ll([(2 * t, 2 * t + 1) for t in range(npairs)], lambda ab: pl(nl(ab[0]), nl(ab[1]))))
+        obs = "ObErr" if err else "ObG %s %s" % (ll(toks, nl), nl(0))
+        if err:
+            m["error"] = err
+            fail("generate failed on children of equal length: " + err, m, {"kind": "generate_error"})
+        else:
+            # direct oracle: no distinct design discarded, no repeated design accepted
+            kept = set(toks)
+            for j in range(len(planned)):
+                if j in kept:
+                    continue
+                if any(oracle_eq(planned[j], planned[t]) for t in toks if t < j):
+                    near = not any(bits_equal(planned[j], planned[t]) for t in toks if t < j)
+                    G["rejected_near_repeat" if near else "rejected_exact_repeat"] += 1
+                    continue
+                if j == len(planned) - 1 and len(offs) >= N:
+                    G["capacity_cut"] += 1
+                    continue
+                fail("generate discarded child %d %r although it differs from every kept design in some coordinate by 1e-10 or more"
+                     % (j, planned[j]), m, {"kind": "generate_discard", "children": planned, "N": N})
+                break
+            for a_ in range(len(toks)):
+                for b_ in range(a_):
+                    ta, tb = toks[a_], toks[b_]
+                    if ta < len(planned) and tb < len(planned) and oracle_eq(planned[ta], planned[tb]):
+                        fail("generate accepted child %d %r, a repeat of the earlier offspring %d %r" % (ta, planned[ta], tb, planned[tb]),
+                             m, {"kind": "generate_repeat", "children": planned, "N": N})
+            for a_ in range(len(toks)):
+                for b_ in range(a_):
+                    ta, tb = toks[a_], toks[b_]
+                    if ta < len(planned) and tb < len(planned):
+                        if hash(tuple(planned[ta])) == hash(tuple(planned[tb])):
+                            G["kept_hash_colliding_distinct"] += 1
+                        elif max(abs(x - y) for x, y in zip(planned[ta], planned[tb])) < 1e-8:
+                            G["kept_near_but_distinct"] += 1
+        G["cases"] += 1
+        G["children"] += len(planned)
+        bump(G["by_N"], N)
+        bump(G["by_mode"], mode)
+        bump(G["by_class"], cls.__name__)
+        emit(pool_txt, op, obs, m, ("generate", N, tuple(tuple(v) for v in planned)), True)
+        if sample:
             ctx.sample(m)
 
-    ctx.coq_compare("c20", HEADER, "c20_case", "c20_obs", "c20_run", "c20_obs_eqb", cases, expected, meta, shard=400)
-    ctx.rule = ("pools of 2..8 Individuals of dimension 1..6: copies, copies perturbed in 1..n coordinates by deltas %r, unrelated vectors, "
-                "the same object twice; operations ==, in, any(==), list.remove, Archive.remove, set(); non-trivial = pool has >1 distinct "
-                "objects; distinct = distinct (operation, pool vectors, operands)") % (DELTAS,)
+    # the streams of the red-team demonstration (hash(-1.0) == hash(-2.0)), then generated streams
+    for script in ([[-1.0, 0.5], [3.0, 0.5], [-2.0, 0.5], [7.0, 0.5]], [[0.25, -2.0], [3.0, 0.5], [0.25, -1.0], [7.0, 0.5]],
+                   [[4.0, 0.5], [3.0, 0.5], [4.0, 0.5], [7.0, 0.5]], [[1.0, 0.5], [1.0 + 1e-11, 0.5], [1.0, 0.5 + 1e-9], [2.0 ** 61, 0.5]]):
+        for mode in ("crossover", "mutator"):
+            gen_case(3, 2, script, mode, ["list"], Individual, False)
+    for gi in range(n_gen):
+        N = rng.choice([2, 2, 3, 3, 4, 5, 8])
+        n = rng.choice([1, 2, 2, 3, 4])
+        gen_case(N, n, stream(n, 2 * rng.choice([N // 2 + 1, N, N + 2])), rng.choice(["crossover", "mutator"]),
+                 rng.choice([["list"], ["list"], ["list", "npf", "arr", "int"]]), rng.choice(CLASSES), rng.random() < 0.2, sample=gi < 2)
+
+    stats["hash_collisions_available"] = sum(1 for a, b in COLLIDE.items() if hash(a) == hash(b))
+    ctx.coq_compare("c20", HEADER, "c20_case", "c20_obs", "c20_run", "c20_obs_eqb", cases, expected, meta, shard=300)
+    ctx.rule = ("(1) pools of 2..7 designs of dimension 1..6 (copies, copies perturbed in 1..n coordinates by deltas %r, hash-colliding "
+                "variants, unrelated vectors) built as Individual / IndividualNSGAII / IndividualEpsMOEA / IndividualSwarm through constructor, "
+                ".copy(), copy.copy, copy.deepcopy, sync, to_dict->JSON->from_dict, from_dict with the id of another pool member, id assignment, "
+                "with float / numpy / int coordinates and scrambled costs, state, population_id, features; operations ==, != (both directions), in, "
+                "any(==), list.remove, Archive.remove, Selector.pop_acceptance, set(), nondominated_truncate; (2) the same operations on local "
+                "designs mixed with designs of a second interpreter that carry the same ids; (3) GeneticAlgorithm.generate for N in 2..8 on scripted "
+                "streams of children (exact repeats, near repeats, hash collisions, fresh); non-trivial = more than one object; distinct = distinct "
+                "(operation, vectors, operands)") % (DELTAS,)
     ctx.extra.update(stats)
